@@ -545,6 +545,52 @@ func nonNegative(p *core.Prog, v ssa.Value, depth int) bool {
 		return false
 	}
 	switch x := v.(type) {
+	case *ssa.UnOp:
+		// a counter field: only ever assigned non-negative constants or itself plus a non-negative constant
+		if x.Op != token.MUL {
+			return false
+		}
+		fa, ok := x.X.(*ssa.FieldAddr)
+		if !ok {
+			return false
+		}
+		owner, field := core.FieldOf(fa)
+		if owner == nil {
+			return false
+		}
+		okAll := true
+		for _, fn := range p.ModuleFuncs() {
+			core.Instrs(fn, func(in ssa.Instruction) {
+				st, ok := in.(*ssa.Store)
+				if !ok {
+					return
+				}
+				f2, ok := st.Addr.(*ssa.FieldAddr)
+				if !ok {
+					return
+				}
+				if o2, fl2 := core.FieldOf(f2); o2 != owner || fl2 != field {
+					return
+				}
+				val := stripConv(st.Val)
+				if k, ok := core.ConstInt(val); ok && k >= 0 {
+					return
+				}
+				if bo, ok := val.(*ssa.BinOp); ok && bo.Op == token.ADD {
+					if l, ok := bo.X.(*ssa.UnOp); ok && l.Op == token.MUL {
+						if f3, ok := l.X.(*ssa.FieldAddr); ok {
+							if o3, fl3 := core.FieldOf(f3); o3 == owner && fl3 == field {
+								if k, ok := core.ConstInt(bo.Y); ok && k >= 0 {
+									return
+								}
+							}
+						}
+					}
+				}
+				okAll = false
+			})
+		}
+		return okAll
 	case *ssa.Const:
 		k, ok := core.ConstInt(x)
 		return ok && k >= 0
